@@ -17,7 +17,21 @@ def pureCallees : List String := [
   "math/bits.LeadingZeros32", "math/bits.LeadingZeros64", "math/bits.OnesCount8", "math/bits.OnesCount16",
   "math/bits.OnesCount32", "math/bits.OnesCount64", "math/bits.Reverse8", "math/bits.TrailingZeros8",
   "math/bits.TrailingZeros64", "math/bits.TrailingZeros32", "math/bits.LeadingZeros8", "math/bits.Len64", "math/bits.Len32",
-  "bytes.Compare", "bytes.Equal", "fmt.Sprintf", "strings.Join",
+  "math/bits.Len", "math/bits.Len8", "math/bits.Len16", "math/bits.LeadingZeros16", "math/bits.LeadingZeros",
+  "math/bits.TrailingZeros16", "math/bits.TrailingZeros", "math/bits.OnesCount", "math/bits.Reverse16", "math/bits.Reverse32",
+  "math/bits.Reverse64", "math/bits.ReverseBytes16", "math/bits.ReverseBytes32", "math/bits.ReverseBytes64",
+  "math/bits.RotateLeft8", "math/bits.RotateLeft16", "math/bits.RotateLeft32", "math/bits.RotateLeft64",
+  "math/bits.Add64", "math/bits.Sub64", "math/bits.Mul64",
+  "bytes.Compare", "bytes.Equal", "bytes.HasPrefix", "bytes.HasSuffix", "bytes.Index", "bytes.IndexByte", "bytes.LastIndexByte",
+  "bytes.Count", "bytes.Contains",
+  "fmt.Sprintf", "strings.Join", "strings.Repeat", "strings.HasPrefix", "strings.HasSuffix", "strings.Index", "strings.IndexByte",
+  "strings.LastIndex", "strings.LastIndexByte", "strings.Compare", "strings.Contains", "strings.Count", "strings.TrimRight",
+  "strings.TrimLeft", "strings.Trim", "strings.TrimPrefix", "strings.TrimSuffix", "strings.Split", "strings.EqualFold",
+  "strconv.FormatUint", "strconv.FormatInt", "strconv.Itoa", "strconv.ParseUint", "strconv.ParseInt", "strconv.Atoi", "strconv.Quote",
+  "unicode/utf8.RuneCountInString", "unicode/utf8.DecodeRuneInString", "unicode/utf8.DecodeLastRuneInString",
+  "unicode/utf8.ValidString", "unicode/utf8.RuneLen", "unicode/utf8.RuneCount", "unicode/utf8.DecodeRune", "unicode/utf8.Valid",
+  "(encoding/binary.bigEndian).Uint16", "(encoding/binary.bigEndian).Uint32", "(encoding/binary.bigEndian).Uint64",
+  "(encoding/binary.littleEndian).Uint16", "(encoding/binary.littleEndian).Uint32", "(encoding/binary.littleEndian).Uint64",
   "reflect.ValueOf", "(reflect.Value).Index", "(reflect.Value).Interface", "(reflect.Value).Kind", "(reflect.Value).Len",
   "(*github.com/openacid/must/disabled.foo).Equal", "(*github.com/openacid/must/disabled.foo).NotEqual",
   "(*github.com/openacid/must/disabled.foo).OK", "(*github.com/openacid/must/disabled.foo).True"]
@@ -29,7 +43,7 @@ theorem C19_effects_ok : ∀ e ∈ effects, e.root = Root.owned ∨ e.initOnly =
 
 /-- every call leaving the analysed functions (outside package initialisation) is to a reviewed pure callee;
     there is no dynamic call, goroutine, defer, channel operation or map iteration -/
-theorem C19_calls_ok : ∀ c ∈ extCalls, c.initOnly = true ∨ c.callee ∈ pureCallees := by decide
+theorem C19_calls_ok : ∀ c ∈ extCalls, c.initOnly = true ∨ c.callee ∈ pureCallees := by decide +kernel
 
 /-- the listed query functions are among the analysed ones -/
 theorem C19_analysed_covers : ∀ f ∈ [
